@@ -462,4 +462,6 @@ ben("C05", "c05-benign-time-format-memo-with-rate", IA, "def to_time_format(cont
 brk("C15", "c15-copy-to-self-guard-dropped", MODEL, "    if dest is self:\n      return\n\n    dest.set_begin(self.get_begin())", "    dest.set_begin(self.get_begin())", "LIVE-alias")
 ben("C15", "c15-benign-copy-to-self-guard-swapped", MODEL, "    if dest is self:\n      return\n\n    dest.set_begin(self.get_begin())", "    if self is dest:\n      return\n\n    dest.set_begin(self.get_begin())")
 
+brk("C11", "c11-voice-tag-opens-no-span", VTTR, "    if tag.startswith(\"rt\") and self.ruby_rtc is not None:", "    if tag == \"v\":\n      return\n\n    if tag.startswith(\"rt\") and self.ruby_rtc is not None:", "PAIR-span")
+
 VARIANTS = V
